@@ -92,6 +92,22 @@ func runC17Real(c *c17Case) *c17Obs {
 			time.Sleep(5 * time.Millisecond)
 		}
 		time.Sleep(100 * time.Millisecond)
+		if c.Broadcast {
+			c17Broadcast(srv)
+			deadline = time.Now().Add(10 * time.Second)
+			for time.Now().Before(deadline) {
+				got := 0
+				for _, run := range runs {
+					run.mu.Lock()
+					got += len(run.pushed)
+					run.mu.Unlock()
+				}
+				if got >= 2*len(runs) {
+					break
+				}
+				time.Sleep(5 * time.Millisecond)
+			}
+		}
 	}
 	c17Collect(c, srv, runs, obs)
 	// the server finishes every session first (the clients' receivers then end at once), clients close concurrently
